@@ -4,6 +4,8 @@
 //        C connected, P perm.., I invp.., D defect, Z zero-pivot positions (permuted numbering), X solution (permuted numbering)
 //        V inverse entries on the profile as triples i j v (permuted numbering, regular case only)
 //   B nblocks {dim band values}               -> F factor values per block or "notpd k"
+//   U m n {k {col value}*k}*m                 -> raw storage, any order of the column indices, repeated indices allowed:
+//        RT / RTT = storage of transpose() / transpose()->transpose(): rows, then per row: count {index value}*count
 #include "hcommon.h"
 #include <gnu_gama/sparse/smatrix.h>
 #include <gnu_gama/sparse/smatrix_graph.h>
@@ -11,6 +13,16 @@
 #include <gnu_gama/sparse/sbdiagonal.h>
 #include <gnu_gama/adj/envelope.h>
 using namespace GNU_gama;
+
+static void raw(const SparseMatrix<>* s, const char* tag) {
+  std::cout << tag << ' ' << s->rows();
+  for (int i = 1; i <= s->rows(); i++) {
+    double* b = s->begin(i); double* e = s->end(i); int* k = s->ibegin(i);
+    std::cout << ' ' << (e - b);
+    for (; b != e; ++b, ++k) std::cout << ' ' << *k << ' ' << dhex(*b);
+  }
+  std::cout << "\n";
+}
 
 static void dense(const SparseMatrix<>* s, const char* tag) {
   std::cout << tag << ' ' << s->rows() << ' ' << s->columns();
@@ -64,6 +76,16 @@ int main() {
         }
         std::cout << "\n";
         delete t; delete r; delete sm;
+      } else if (w[0] == "U") {
+        int m = std::stoi(w[p++]), n = std::stoi(w[p++]);
+        std::vector<std::vector<std::pair<int, double>>> rows(m);
+        int nz = 0;
+        for (int i = 0; i < m; i++) { int k = std::stoi(w[p++]); for (int j = 0; j < k; j++) { int c = std::stoi(w[p++]); double v = hexd(w[p++]); rows[i].push_back({c, v}); nz++; } }
+        SparseMatrix<>* sm = new SparseMatrix<>(nz + 1, m, n);
+        for (int i = 0; i < m; i++) { sm->new_row(); for (auto& e : rows[i]) sm->add_element(e.second, e.first); }
+        SparseMatrix<>* t = sm->transpose(); raw(t, "RT");
+        SparseMatrix<>* tt = t->transpose(); raw(tt, "RTT");
+        delete tt; delete t; delete sm;
       } else if (w[0] == "B") {
         int nb = std::stoi(w[p++]);
         std::vector<int> dims, bands; std::vector<std::vector<double>> vals;
